@@ -158,6 +158,67 @@ let jobview () =
     v_weight3g = w3; v_due = due }
 let print_str (s : z list) = Printf.printf "OUT %s\nEND\n" (zs s)
 
+(* ---- asyncio scheduler (C17, C18) --------------------------------------------------------------- *)
+let astate : aio option ref = ref None
+let aop () = match next () with
+  | "DEL" -> ADelete (nat ())
+  | "DELJOBS" -> let t = otags () in ADeleteJobs (t, boolean ())
+  | "GETJOBS" -> let t = otags () in AGetJobs (t, boolean ())
+  | "JOBS" -> AJobs
+  | t -> raise (Parse ("aop: " ^ t))
+let phase_name = function PSleep _ -> "sleep" | PRun _ -> "run" | PDone -> "done" | PCancelled -> "cancelled"
+let print_astate (s : aio) =
+  Printf.printf "REG %s\n" (sorted_ids s.a_reg);
+  List.iter (fun (id, a) ->
+      let j = a.aj_job in
+      let d = job_datetime j in
+      Printf.printf "J %d %s %s %s %s %d %s\n" (int_of_nat id) (string_of_z (utc d))
+        (match d.off with None -> "-" | Some o -> string_of_z o)
+        (string_of_z j.j_attempts) (string_of_z j.j_failed)
+        (if has_attempts j then 1 else 0) (phase_name a.aj_phase)) s.a_jobs;
+  List.iter (fun e ->
+      match e with
+      | EStart (id, t, due, args, kw) ->
+        Printf.printf "EV start %d %s %s [%s] {%s}\n" (int_of_nat id) (string_of_z t) (string_of_z due) (zs args)
+          (String.concat "," (List.map (fun (k, v) -> string_of_z k ^ ":" ^ string_of_z v) kw))
+      | EEnd (id, t) -> Printf.printf "EV end %d %s\n" (int_of_nat id) (string_of_z t)
+      | ECancelled (id, t) -> Printf.printf "EV cancel %d %s\n" (int_of_nat id) (string_of_z t)
+      | ELogA id -> Printf.printf "EV log %d\n" (int_of_nat id)) (List.rev s.a_events);
+  print_string "END\n"
+let do_aio (cmd : string) =
+  match cmd with
+  | "AINIT" ->
+    let tz = otz () in
+    let now = zz () in
+    let s = a_init tz now in
+    astate := Some s; print_string "RES ok none\n"; print_astate s
+  | _ ->
+    (match !astate with
+     | None -> print_string "NOSTATE\nEND\n"
+     | Some s ->
+       let o = (match cmd with
+           | "ASCHED" ->
+             let c = cfg () in
+             let durs = counted zz in
+             let pre = counted aop in
+             let post = counted aop in
+             let sync = counted boolean in
+             TSchedule (c, durs, pre, post, sync)
+           | "AONCE" ->
+             let ot = oncetiming () in
+             let c = cfg () in
+             let durs = counted zz in
+             let pre = counted aop in
+             let post = counted aop in
+             let sync = counted boolean in
+             TOnce (ot, c, durs, pre, post, sync)
+           | "AOP" -> TOp (aop ())
+           | "ARUN" -> TRun (zz ())
+           | t -> raise (Parse ("aio op: " ^ t))) in
+       let (s', r) = a_step s o in
+       astate := Some s';
+       print_res r; print_astate s')
+
 (* ---- sequential threading scheduler ----------------------------------------------------- *)
 let state : sched option ref = ref None
 let do_line (line : string) =
@@ -175,7 +236,8 @@ let do_line (line : string) =
        (match sched_init tz mx pk ctor now with
         | Ok s -> state := Some s; print_string "RES ok none\n"; print_state s
         | Err e -> state := None; Printf.printf "RES err %s\nEND\n" (exn_name e))
-     | "RESET" -> state := None; print_string "RESET\n"
+     | "RESET" -> state := None; astate := None; print_string "RESET\n"
+     | ("AINIT" | "ASCHED" | "AONCE" | "AOP" | "ARUN") as c -> do_aio c
      | "TABLE" ->
        let ww = boolean () in
        let has_tz = boolean () in
